@@ -6,7 +6,7 @@ use crate::consts::appconsts::SHARE_SIZE;
 use crate::hash::Hash;
 use crate::nmt::NamespaceProof;
 use crate::{Error, Result, nmt::Namespace};
-use crate::{RowProof, bail_verification, validation_error};
+use crate::{RowProof, bail_verification, validation_error, verification_error};
 
 /// A proof of inclusion of a continouous range of shares of some namespace
 /// in a [`DataAvailabilityHeader`].
@@ -55,7 +55,8 @@ impl ShareProof {
             );
         }
 
-        let mut shares_needed = 0;
+        // summed in `u64` with an overflow check: ranges come from the network as `u32`s
+        let mut shares_needed: u64 = 0;
         for proof in &self.share_proofs {
             if proof.is_of_absence() {
                 bail_verification!("only presence proofs allowed");
@@ -64,10 +65,12 @@ impl ShareProof {
                 bail_verification!("proof without data");
             }
 
-            shares_needed += proof.end_idx() - proof.start_idx();
+            shares_needed = shares_needed
+                .checked_add(u64::from(proof.end_idx() - proof.start_idx()))
+                .ok_or_else(|| verification_error!("shares needed overflow"))?;
         }
 
-        if shares_needed as usize != self.data.len() {
+        if shares_needed != self.data.len() as u64 {
             bail_verification!(
                 "shares needed ({}) != proof's data length ({})",
                 shares_needed,
